@@ -27,8 +27,11 @@ fi
 export VH_BIN="$TGT_BASE/target/release/vh"
 cd "$ROOT" || exit 2
 if [ -x "$ROOT/scripts/pre_$ID.sh" ]; then "$ROOT/scripts/pre_$ID.sh" "$TIER" || exit $?; fi
-"$VH_BIN" check "$ID" --tier "$TIER"
+# wall-clock watchdog: a check that does not finish is INCONCLUSIVE (exit 2), never a violation
+if [ "$TIER" = quick ]; then WD="${VERIF_CHECK_TIMEOUT:-1500}"; else WD="${VERIF_CHECK_TIMEOUT:-21600}"; fi
+timeout -k 15 "$WD" "$VH_BIN" check "$ID" --tier "$TIER"
 rc=$?
+if [ $rc -eq 124 ] || [ $rc -eq 137 ]; then echo "INFRA: check $ID/$TIER did not finish within ${WD}s (inconclusive, not a violation)"; exit 2; fi
 if [ $rc -ne 0 ] && [ $rc -ne 1 ]; then echo "INFRA: harness exited with $rc"; exit 2; fi
 if [ $rc -eq 0 ] && [ -x "$ROOT/scripts/post_$ID.sh" ]; then "$ROOT/scripts/post_$ID.sh" "$TIER"; rc=$?; fi
 exit $rc
